@@ -125,6 +125,23 @@ func bases(thorough bool) []string {
 			}
 		}
 	}
+	// patch numbers around which incrementing and decrementing a decimal string carries or borrows: d99..9 and
+	// d00..0 for every leading digit and 1..30 digits, and 2^k-1, 2^k, 2^k+1 up to 2^70
+	{
+		var ps []string
+		for d := 1; d <= 9; d++ {
+			for n := 1; n <= 30; n++ {
+				ps = append(ps, strconv.Itoa(d)+strings.Repeat("9", n), strconv.Itoa(d)+strings.Repeat("0", n))
+			}
+		}
+		for k := 1; k <= 70; k++ {
+			x := new(big.Int).Lsh(big.NewInt(1), uint(k))
+			ps = append(ps, x.String(), new(big.Int).Sub(x, big.NewInt(1)).String(), new(big.Int).Add(x, big.NewInt(1)).String())
+		}
+		for _, c := range ps {
+			out = append(out, "v1.2."+c, "v0.0."+c+"+incompatible", "v1.2."+c+"-pre", "v2."+c+".0")
+		}
+	}
 	// character sweep: every alphanumeric character and the hyphen in the positions of prerelease and
 	// build identifiers that parsing and trimming code looks at (first, last, alone, before ".0")
 	for _, c := range alnum + "-" {
